@@ -62,6 +62,27 @@ pub fn b64_dec_alpha<S: Src, const N: usize>(s: &mut S) {
     dec_check(s, &b);
 }
 
+/// decode of N bytes that contain one 2-byte UTF-8 character at byte offset POS (lead C2..DF, continuation 80..BF, both
+/// symbolic) and symbolic ASCII elsewhere: valid &str, never base64 -> must be rejected, must not panic.
+pub fn b64_dec_mb<S: Src, const N: usize, const POS: usize>(s: &mut S) {
+    let b: [u8; N] = s.bytes::<N>();
+    let mut i = 0;
+    while i < N {
+        if i == POS {
+            s.assume(b[i] >= 0xC2 && b[i] <= 0xDF);
+        } else if i == POS + 1 {
+            s.assume(b[i] >= 0x80 && b[i] <= 0xBF);
+        } else {
+            s.assume(b[i] < 128);
+        }
+        i += 1;
+    }
+    let text = unsafe { std::str::from_utf8_unchecked(&b) };
+    let got = text.decode();
+    assert!(got.is_err(), "C18 base64 decode: text containing a non-ASCII character is not base64 and must be rejected");
+    s.reached();
+}
+
 fn dec_check<S: Src>(s: &mut S, b: &[u8]) {
     // all bytes are < 0x80 (assumed by the callers), so this is valid UTF-8; the unchecked
     // conversion keeps the length a constant for the solver
